@@ -200,3 +200,21 @@ pub open spec fn owners_ok(r: ZoneResult, qname: DomainName) -> bool {
     &&& r is Delegation && r->ns_rrs@.len() > 0 ==> is_suffix(r->ns_rrs@[0].name.labels@, qname.labels@)
 }
 """
+
+
+# C08: the time budgets.  In the synchronous reading (R32) `timeout(d, fut).await` reads `timeout(d, value)`: the stand-in hands
+# the value back or reports Elapsed; its precondition pins the budget the property states, so the budget is a call-site obligation.
+def timeout_standin(nanos, label):
+    return """
+pub uninterp spec fn dur(d: Duration) -> int;
+pub assume_specification [Duration::from_secs] (s: u64) -> (r: Duration) ensures dur(r) == s * 1_000_000_000;
+pub assume_specification [Duration::from_mins] (m: u64) -> (r: Duration) ensures dur(r) == m * 60_000_000_000;
+pub struct Elapsed { e: u8 }
+// marker: this value came out of `timeout` (it was computed under the budget); produced by nothing else
+pub uninterp spec fn budgeted<T>(v: T) -> bool;
+#[verifier::external_body]
+pub fn timeout<T>(d: Duration, v: T) -> (r: Result<T, Elapsed>)
+    requires dur(d) == %d, // [C08:%s]
+    ensures r is Ok ==> r->Ok_0 == v && budgeted(r->Ok_0),
+{ unimplemented!() }
+""" % (nanos, label)
